@@ -228,9 +228,8 @@ CntOf(sec) == IF sec \in Writable(mfmt, vnum) THEN mshape[sec] ELSE 0
 WriteEmptyRun ==
   /\ mpc = "sec" /\ ~SecDone /\ CntOf(CurSec) = 0
   /\ LET order == SecOrder(mfmt)
-         stop == CHOOSE j \in msec..Len(order) :
-                    /\ \A q \in msec..j : CntOf(order[q]) = 0
-                    /\ (j = Len(order) \/ CntOf(order[j + 1]) > 0)
+         popd == {j \in msec..Len(order) : CntOf(order[j]) > 0}          \* populated sections still to come
+         stop == IF popd = {} THEN Len(order) ELSE (CHOOSE j \in popd : \A q \in popd : j <= q) - 1
      IN  /\ msec' = stop + 1
          /\ mhdr' = [sec \in AllSecs |-> IF \E q \in msec..stop : order[q] = sec THEN <<0, 0>> ELSE mhdr[sec]]
   /\ UNCHANGED <<mfmt, mver, mshape, mtail, mpc, mcur, memit, mtrk, mfile, mparsed, mgen, mfirst>>
@@ -297,10 +296,9 @@ Rewrite ==
 \* others keep their content; record sizes change with the version
 Convert(v2) ==
   /\ mpc = "parsed" /\ mgen = 0 /\ mfmt = "m2"
-  /\ StartWrite("m2", v2,
-                [sec \in AllSecs |-> IF sec \in Representable(mver, v2) THEN ParsedShape[sec] ELSE 0],
-                [sec \in AllSecs |-> IF sec \in Representable(mver, v2) THEN ParsedTail[sec] ELSE 0],
-                2, Snapshot)
+  /\ LET rep == Representable(mver, v2)  pshape == ParsedShape  ptail == ParsedTail
+     IN  StartWrite("m2", v2, [sec \in AllSecs |-> IF sec \in rep THEN pshape[sec] ELSE 0],
+                    [sec \in AllSecs |-> IF sec \in rep THEN ptail[sec] ELSE 0], 2, Snapshot)
 
 Step == \/ WriteHeader \/ WriteEmptyRun
         \/ \E sec \in AllSecs : WriteSection(sec)
